@@ -36,12 +36,19 @@ def isBF : Msg → Bool
   | .frame (.reset _) => true
   | _ => false
 
+/-- Nothing is left for the connection task to do on its own, and the transport takes everything:
+    the state in which the correspondence harness hands an endpoint its next stimulus. -/
+def idleB (e : EP) : Bool :=
+  e.inbox.isEmpty && e.droppedq.isEmpty && e.doneq.isEmpty && e.retryq.isEmpty && e.closing.isNone &&
+  e.draining.isNone && !e.dead && e.sinkRoom.isNone && !e.srcEnded
+
 /-- A running endpoint of the fragment. -/
 structure Run (e : EP) : Prop where
   out : e.outClosed = false
   alive : e.muxAlive = true
   slots : ∀ x s, lookup e.flows x = some s → ∃ r, s = .bindRequested r
   park : ∀ i, e.park ≠ some (.accept i)
+  idle : idleB e = true
 
 structure PInv (oa ob : Opts) (p : PS) : Prop where
   d1 : DirInv (dirOf p)
@@ -84,7 +91,7 @@ theorem init_inv (oa ob : Opts) (ra rb : List Nat) : PInv oa ob (init oa ob ra r
     · intro x y r hx; simp [ownerF] at hx
     · intro r k hl; simp at hl
   have hr : ∀ (o : Opts) (r : List Nat), Run ({ opts := o, rng := r } : EP) :=
-    fun o r => ⟨rfl, rfl, by intro x s hs; simp at hs, by intro i; simp⟩
+    fun o r => ⟨rfl, rfl, by intro x s hs; simp at hs, by intro i; simp, rfl⟩
   exact ⟨hd _, hd _, hr _ _, hr _ _, by simp [init], by simp [init], rfl, rfl⟩
 
 end Penguin.BindPair
@@ -99,7 +106,7 @@ theorem step_xmit {oa ob : Opts} {p q : PS} (h : PInv oa ob p) (hs : stepL p .xm
   · rename_i m rest hq
     cases hs
     have e1 : (p.ab ++ [m]) ++ rest = p.ab ++ p.a.outq := by rw [hq]; simp
-    refine ⟨?_, ?_, ⟨h.ra.out, h.ra.alive, h.ra.slots, h.ra.park⟩, h.rb, ?_, h.wb, h.oa, h.ob⟩
+    refine ⟨?_, ?_, ⟨h.ra.out, h.ra.alive, h.ra.slots, h.ra.park, h.ra.idle⟩, h.rb, ?_, h.wb, h.oa, h.ob⟩
     · exact h.d1.of_eq (by simp only [dirOf, e1])
     · exact h.d2.of_eq (by simp only [dirOf, PS.swap, e1])
     · intro m' hm'
@@ -121,7 +128,7 @@ theorem step_unpark {oa ob : Opts} {p q : PS} (h : PInv oa ob p) (hs : stepL p .
       · have hu : Mux.unpark p.a = { p.a with bindq := p.a.bindq ++ [b], park := none } := by
           unfold Mux.unpark; rw [hpk]; simp [h.ra.alive, hroom]
         rw [hu]
-        refine ⟨?_, ?_, ⟨h.ra.out, h.ra.alive, h.ra.slots, by intro i; simp⟩, h.rb, h.wa, h.wb, h.oa, h.ob⟩
+        refine ⟨?_, ?_, ⟨h.ra.out, h.ra.alive, h.ra.slots, by intro i; simp, h.ra.idle⟩, h.rb, h.wa, h.wb, h.oa, h.ob⟩
         · exact h.d1
         · exact h.d2.unpark.of_eq (by simp only [dirOf, PS.swap, Dir.unpark, hpk, parkB, hroom, if_true])
       · have hu : Mux.unpark p.a = p.a := by
@@ -145,7 +152,7 @@ theorem step_bindNext {oa ob : Opts} {p q : PS} (h : PInv oa ob p) (hs : stepL p
         unfold appBindNext; simp [hc, hq]
       simp only [stepL, hn] at hs
       cases hs
-      refine ⟨?_, ?_, ⟨h.ra.out, h.ra.alive, h.ra.slots, h.ra.park⟩, h.rb, h.wa, h.wb, h.oa, h.ob⟩
+      refine ⟨?_, ?_, ⟨h.ra.out, h.ra.alive, h.ra.slots, h.ra.park, h.ra.idle⟩, h.rb, h.wa, h.wb, h.oa, h.ob⟩
       · refine h.d1.of_eq ?_
         simp only [dirOf]
         split <;> rfl
@@ -195,7 +202,7 @@ theorem step_bindReq {oa ob : Opts} {p q : PS} {req : Nat} {bt : BindType} {host
         simp [h.ra.out]
       simp only [hr, hd, h.ra.out, Bool.false_eq_true, if_false] at hs
       cases hs
-      refine ⟨?_, ?_, ⟨by first | exact h.ra.out | rfl, h.ra.alive, ?_, h.ra.park⟩, h.rb, ?_, h.wb, h.oa, h.ob⟩
+      refine ⟨?_, ?_, ⟨by first | exact h.ra.out | rfl, h.ra.alive, ?_, h.ra.park, h.ra.idle⟩, h.rb, ?_, h.wb, h.oa, h.ob⟩
       · refine (h.d1.ask req fid bt host port hspec.2 hreq).of_eq ?_
         simp [dirOf, Dir.ask, resultsOf, List.filterMap_append, bindIn?]
       · refine h.d2.of_eq ?_
@@ -235,7 +242,7 @@ theorem step_bindReply {oa ob : Opts} {p q : PS} {k : Nat} {acc : Bool} (h : PIn
       simp only [hr] at hs
       cases hs
       have hp : b.pending = true := by simp [BindIn.pending, hal.1, hal.2]
-      refine ⟨?_, ?_, ⟨h.ra.out, h.ra.alive, h.ra.slots, h.ra.park⟩, h.rb, ?_, h.wb, h.oa, h.ob⟩
+      refine ⟨?_, ?_, ⟨h.ra.out, h.ra.alive, h.ra.slots, h.ra.park, h.ra.idle⟩, h.rb, ?_, h.wb, h.oa, h.ob⟩
       · refine h.d1.of_eq ?_
         cases acc <;> simp [dirOf, List.filterMap_append, bindIn?]
       · refine (h.d2.decide k b (fun b => { b with replied := true }) acc hk hp (by simp [BindIn.pending]) (fun r => rfl)).of_eq ?_
@@ -264,7 +271,7 @@ theorem step_bindDrop {oa ob : Opts} {p q : PS} {k : Nat} (h : PInv oa ob p) (hs
         simp only [hr, hrep, if_true] at hs
         cases hs
         have hp : b.pending = false := by simp [BindIn.pending, hrep]
-        refine ⟨?_, ?_, ⟨h.ra.out, h.ra.alive, h.ra.slots, h.ra.park⟩, h.rb, h.wa, h.wb, h.oa, h.ob⟩
+        refine ⟨?_, ?_, ⟨h.ra.out, h.ra.alive, h.ra.slots, h.ra.park, h.ra.idle⟩, h.rb, h.wa, h.wb, h.oa, h.ob⟩
         · exact h.d1
         · exact (h.d2.touch k b (fun b => { b with alive := false }) hk hp (by simp [BindIn.pending]) (fun r => rfl)).of_eq
             (by simp [dirOf, PS.swap, Dir.touch])
@@ -276,7 +283,7 @@ theorem step_bindDrop {oa ob : Opts} {p q : PS} {k : Nat} (h : PInv oa ob p) (hs
         simp only [hr, hrep, Bool.false_eq_true, if_false] at hs
         cases hs
         have hp : b.pending = true := by simp [BindIn.pending, hal, hrep]
-        refine ⟨?_, ?_, ⟨h.ra.out, h.ra.alive, h.ra.slots, h.ra.park⟩, h.rb, ?_, h.wb, h.oa, h.ob⟩
+        refine ⟨?_, ?_, ⟨h.ra.out, h.ra.alive, h.ra.slots, h.ra.park, h.ra.idle⟩, h.rb, ?_, h.wb, h.oa, h.ob⟩
         · refine h.d1.of_eq ?_
           simp [dirOf, List.filterMap_append, bindIn?]
         · refine (h.d2.decide k b (fun b => { b with alive := false }) false hk hp (by simp [BindIn.pending]) (fun r => rfl)).of_eq ?_
@@ -294,7 +301,7 @@ namespace Penguin.BindPair
 open Penguin.Mux
 
 theorem Run.erase {e : EP} (h : Run e) (x : Nat) : Run { e with flows := erase e.flows x } := by
-  refine ⟨h.out, h.alive, ?_, h.park⟩
+  refine ⟨h.out, h.alive, ?_, h.park, h.idle⟩
   intro y s hy
   by_cases hyx : y = x
   · subst hyx; simp only [lookup_erase_self] at hy; cases hy
@@ -331,7 +338,7 @@ theorem step_recv {oa ob : Opts} {p q : PS} (h : PInv oa ob p) (hs : stepL p .re
               unfold processFrame; simp [hc0, EP.enqFrame, EP.enq, h.ra.out]
             simp only [hba, hpf] at hs
             cases hs
-            refine ⟨?_, ?_, ⟨h.ra.out, h.ra.alive, h.ra.slots, h.ra.park⟩, h.rb, ?_, hwb', h.oa, h.ob⟩
+            refine ⟨?_, ?_, ⟨h.ra.out, h.ra.alive, h.ra.slots, h.ra.park, h.ra.idle⟩, h.rb, ?_, hwb', h.oa, h.ob⟩
             · refine h.d1.of_eq ?_
               simp [dirOf, hba, List.filterMap_append, bindIn?, fm_ans_bind, resultsOf]
             · refine (h.d2.recvBind (by simp [dirOf, PS.swap, hpark, parkB])).of_eq ?_
@@ -348,7 +355,7 @@ theorem step_recv {oa ob : Opts} {p q : PS} (h : PInv oa ob p) (hs : stepL p .re
                 unfold processFrame; simp [hc0, h.ra.alive, offerBind, hroom]
               simp only [hba, hpf] at hs
               cases hs
-              refine ⟨?_, ?_, ⟨h.ra.out, h.ra.alive, h.ra.slots, h.ra.park⟩, h.rb, h.wa, hwb', h.oa, h.ob⟩
+              refine ⟨?_, ?_, ⟨h.ra.out, h.ra.alive, h.ra.slots, h.ra.park, h.ra.idle⟩, h.rb, h.wa, hwb', h.oa, h.ob⟩
               · refine h.d1.of_eq ?_
                 simp [dirOf, hba, List.filterMap_append, fm_ans_bind, resultsOf]
               · refine (h.d2.recvBind (by simp [dirOf, PS.swap, hpark, parkB])).of_eq ?_
@@ -358,7 +365,7 @@ theorem step_recv {oa ob : Opts} {p q : PS} (h : PInv oa ob p) (hs : stepL p .re
                 unfold processFrame; simp [hc0, h.ra.alive, offerBind, hroom]
               simp only [hba, hpf] at hs
               cases hs
-              refine ⟨?_, ?_, ⟨h.ra.out, h.ra.alive, h.ra.slots, by intro i; simp⟩, h.rb, h.wa, hwb', h.oa, h.ob⟩
+              refine ⟨?_, ?_, ⟨h.ra.out, h.ra.alive, h.ra.slots, by intro i; simp, h.ra.idle⟩, h.rb, h.wa, hwb', h.oa, h.ob⟩
               · refine h.d1.of_eq ?_
                 simp [dirOf, hba, List.filterMap_append, fm_ans_bind, resultsOf]
               · refine (h.d2.recvBind (by simp [dirOf, PS.swap, hpark, parkB])).of_eq ?_
